@@ -141,6 +141,9 @@ def check_property(prop, tier, jobs, use_cache=True):
                 continue
         solver_s += info.get('solve_s') or 0
         for r in res:
+            only = re.search(r'/(C\d\d)-only/', r['name'])
+            if only and only.group(1) != prop:
+                continue        # an obligation stated for one property only (the contract serves several)
             o = obligations.setdefault(r['name'], {'name': r['name'], 'paths': 0, 'discharged': 0, 'failed': [], 'unknown': 0,
                                                     'kind': r['kind'], 'time_s': 0.0, 'contract': t[0]})
             o['paths'] += 1
